@@ -28,7 +28,7 @@ def digest(x):
 def viol(clause, site, shape, detail, **extra):
     """A violation record. clause: oracle clause id; site: failing call site / type kind;
     shape: set of alphabet symbol names occupying the offending position."""
-    d = {"clause": clause, "site": site, "shape": sorted(set(shape)), "detail": str(detail)[:600]}
+    d = {"clause": clause, "site": site, "shape": sorted(set(shape)), "detail": str(detail)[:600].replace("\n", " | ")}
     d.update(extra)
     return d
 
@@ -186,8 +186,16 @@ class Run:
             # keep the simplest case per signature (shortest JSON)
             if len(jdump(case)) < len(jdump(g["case"])):
                 g["case"], g["v"] = case, v
-        # collapse by (clause, site): report the minimal-shape representative of each, keep counts
+        # subsumption among new violations (same rule as for known findings): a signature whose
+        # shape is a superset of an already kept one with equal clause and site is the same defect
+        kept = []
         for sig, g in sorted(groups.items(), key=lambda kv: (len(kv[0][2]), kv[0])):
+            parent = next((k for k in kept if k[0][0] == sig[0] and k[0][1] == sig[1] and set(k[0][2]) <= set(sig[2])), None)
+            if parent is not None:
+                parent[1]["count"] += g["count"]
+                continue
+            kept.append((sig, g))
+        for sig, g in kept:
             if replay_fn is not None:
                 again = replay_fn(g["case"])
                 sigs2 = {(x["clause"], x["site"], tuple(x["shape"])) for x in again.get("viol", ())}
